@@ -387,6 +387,7 @@ func checkC05(c *Check) {
 func collectorSharing(c *Check, ic *importClosure) {
 	p := c.P
 	col := ic.collector
+	claimCompares(c, ic)
 	// locate read, claim, lookup
 	read := ic.readCall
 	if read == nil {
@@ -1900,4 +1901,178 @@ func pushedInReverse(push *ssa.Call) (bool, string) {
 		return true, ""
 	}
 	return false, "the loop that pushes the imports does not run from the last import to the first by one"
+}
+
+// claimCompares (CLAIM-COMPARES): a file reached twice is compiled once, under
+// the import definition of whoever registered it first. That is the same for
+// every schedule only if the two definitions agree, so the already-registered
+// branch has to compare them. The definition is the collector's struct
+// parameter one of whose fields makes the canonical key. For every other field
+// of it: some comparison in the collector (or the claiming helper) has one side
+// read from the newcomer's field and the other from the same field of another
+// value of that type (the registered one). A field that is not compared lets the
+// first arrival decide (`import x.yaml as foo.Api` and `as bar.Api`).
+func claimCompares(c *Check, ic *importClosure) {
+	p := c.P
+	col := ic.collector
+	if col == nil || ic.canon == nil {
+		return
+	}
+	// the definition parameter: a struct-typed parameter with a field that flows to the canonicaliser
+	var def *ssa.Parameter
+	var st *types.Struct
+	keyField := -1
+	for _, prm := range col.Params {
+		s, ok := prm.Type().Underlying().(*types.Struct)
+		if !ok {
+			continue
+		}
+		eachCall(col, func(cl ssa.CallInstruction) {
+			if staticCallee(cl) != ic.canon || len(cl.Common().Args) == 0 {
+				return
+			}
+			derives(cl.Common().Args[0], func(v ssa.Value) bool {
+				switch x := v.(type) {
+				case *ssa.FieldAddr:
+					if unspill(x.X) == ssa.Value(prm) || allocOfParam(x.X, prm) {
+						def, st, keyField = prm, s, x.Field
+						return true
+					}
+				case *ssa.Field:
+					if unspill(x.X) == ssa.Value(prm) {
+						def, st, keyField = prm, s, x.Field
+						return true
+					}
+				}
+				return false
+			}, nil)
+		})
+	}
+	if def == nil {
+		c.Undecidedf("CLAIM-COMPARES", fnName(col), p.pos(col.Pos()), "the collector's import-definition parameter (the struct whose field makes the canonical key) was not found: unresolved anchor")
+		return
+	}
+	fns := []*ssa.Function{col}
+	if ic.claimer != nil && ic.claimer != col {
+		fns = append(fns, ic.claimer)
+	}
+	// same-package helpers the collector hands the definition to (a comparison extracted into a helper)
+	eachCall(col, func(cl ssa.CallInstruction) {
+		if sc := staticCallee(cl); sc != nil && fnPkgPath(sc) == fnPkgPath(col) && len(sc.Blocks) > 0 && sc != ic.canon {
+			for _, a := range cl.Common().Args {
+				if types.Identical(a.Type(), def.Type()) {
+					fns = append(fns, sc)
+				}
+			}
+		}
+	})
+	fieldOfDef := func(v ssa.Value, idx int) (newcomer bool, ok bool) {
+		hit, mine := false, false
+		derives(v, func(x ssa.Value) bool {
+			switch y := x.(type) {
+			case *ssa.FieldAddr:
+				pt, isP := y.X.Type().Underlying().(*types.Pointer)
+				if isP && types.Identical(pt.Elem().Underlying(), st) && y.Field == idx {
+					hit = true
+					if unspill(y.X) == ssa.Value(def) || allocOfParam(y.X, def) {
+						mine = true
+					} else if prm, isPrm := unspillParamAlloc(y.X); isPrm && types.Identical(prm.Type(), def.Type()) && prm.Parent() != col {
+						mine = paramIndex(prm.Parent(), prm) == 0 // helper(newcomer, registered): by position
+					}
+					return true
+				}
+			case *ssa.Field:
+				if types.Identical(y.X.Type().Underlying(), st) && y.Field == idx {
+					hit = true
+					mine = unspill(y.X) == ssa.Value(def)
+					return true
+				}
+			}
+			return false
+		}, &deriveOpts{throughCalls: func(*ssa.Call) bool { return true }, throughBinOp: true})
+		return mine, hit
+	}
+	for i := 0; i < st.NumFields(); i++ {
+		name := st.Field(i).Name()
+		key := fmt.Sprintf("%s|field %s of the import definition compared when the file is already registered", fnName(col), name)
+		if i == keyField {
+			c.Okf("CLAIM-COMPARES", key, p.pos(col.Pos()), "the field makes the canonical key: the look-up itself compares it")
+			continue
+		}
+		// a field nobody reads cannot make two definitions differ in effect
+		read := false
+		for _, f := range p.RepoFuncs() {
+			if fnPkgPath(f) != fnPkgPath(col) || read {
+				continue
+			}
+			eachInstr(f, func(_ *ssa.BasicBlock, ins ssa.Instruction) {
+				switch y := ins.(type) {
+				case *ssa.FieldAddr:
+					pt, isP := y.X.Type().Underlying().(*types.Pointer)
+					if isP && types.Identical(pt.Elem().Underlying(), st) && y.Field == i && y.Referrers() != nil {
+						for _, r := range *y.Referrers() {
+							if ld, ok := r.(*ssa.UnOp); ok && ld.Op == token.MUL {
+								read = true
+							}
+						}
+					}
+				case *ssa.Field:
+					if types.Identical(y.X.Type().Underlying(), st) && y.Field == i {
+						read = true
+					}
+				}
+			})
+		}
+		if !read {
+			c.Okf("CLAIM-COMPARES", key, p.pos(col.Pos()), "the field is never read in the package: it cannot make two definitions of one file differ in effect")
+			continue
+		}
+		compared := false
+		for _, f := range fns {
+			eachInstr(f, func(_ *ssa.BasicBlock, ins ssa.Instruction) {
+				bin, ok := ins.(*ssa.BinOp)
+				if !ok || (bin.Op != token.EQL && bin.Op != token.NEQ) {
+					return
+				}
+				_, okX := fieldOfDef(bin.X, i)
+				_, okY := fieldOfDef(bin.Y, i)
+				if okX && okY {
+					compared = true
+				}
+			})
+		}
+		c.Cond(compared, "CLAIM-COMPARES", key, p.pos(col.Pos()),
+			"the newcomer's value of the field is compared with the registered one",
+			fmt.Sprintf("nothing compares field %s of a newcomer with that of the definition the file was registered under: two imports of one file that differ in %s are compiled as whichever arrives first — the model depends on the schedule of the fetchers", name, name))
+	}
+}
+
+// allocOfParam: addr is the local cell a struct parameter was spilled into.
+func allocOfParam(addr ssa.Value, prm *ssa.Parameter) bool {
+	al, ok := addr.(*ssa.Alloc)
+	if !ok || al.Referrers() == nil {
+		return false
+	}
+	for _, r := range *al.Referrers() {
+		if st, ok := r.(*ssa.Store); ok && st.Addr == ssa.Value(al) && st.Val == ssa.Value(prm) {
+			return true
+		}
+	}
+	return false
+}
+
+// unspillParamAlloc: the parameter a local cell holds, if any.
+func unspillParamAlloc(addr ssa.Value) (*ssa.Parameter, bool) {
+	al, ok := addr.(*ssa.Alloc)
+	if !ok || al.Referrers() == nil {
+		return nil, false
+	}
+	for _, r := range *al.Referrers() {
+		if st, ok := r.(*ssa.Store); ok && st.Addr == ssa.Value(al) {
+			if prm, ok := st.Val.(*ssa.Parameter); ok {
+				return prm, true
+			}
+		}
+	}
+	return nil, false
 }
